@@ -9,7 +9,7 @@ for p in sorted(glob.glob('/verif/seeded/*/meta.json')):
     ok = all(c.get(k) for k in ('applies', 'builds', 'suite_ok', 'demo_fails_with', 'demo_passes_without'))
     ch = m.get('check', {})
     rows.append((name, m.get('title', '').replace('|', '/')[:110], m.get('needs', '').replace('|', '/').replace('\n', ' ')[:160],
-                 'yes' if ok else 'NO (%s)' % ','.join(k for k in ('applies', 'builds', 'suite_ok', 'demo_fails_with', 'demo_passes_without') if not c.get(k)),
+                 'by the improver, no demo' if m.get('origin') else 'yes' if ok else 'NO (%s)' % ','.join(k for k in ('applies', 'builds', 'suite_ok', 'demo_fails_with', 'demo_passes_without') if not c.get(k)),
                  'detected' if ch.get('detected') else 'MISSED',
                  ' '.join('%s:%s' % (k, 'detected' if v.get('detected') else 'missed') for k, v in sorted(ch.get('other_seeds', {}).items())) or '-',
                  ', '.join(ch.get('violations', []))[:160], ch.get('note', '') or ''))
